@@ -9,10 +9,12 @@ package main
 
 import (
 	"fmt"
+	"os"
 	"sort"
 	"strings"
 
 	"github.com/snapcore/snapd/asserts"
+	"github.com/snapcore/snapd/asserts/assertstest"
 	"github.com/snapcore/snapd/interfaces"
 	"github.com/snapcore/snapd/interfaces/policy"
 	"github.com/snapcore/snapd/release"
@@ -139,10 +141,32 @@ type in struct {
 
 // ---------------------------------------------------------------- Coq printing
 
+// Strings of the generator pools are printed as identifiers defined once in the prelude of the case file
+// (checks/c21.py builds `Definition s_<name> := bs "<name>".` from the same list): string literals are what makes
+// Coq slow on large case files.
+var interned = map[string]string{}
+
+func init() {
+	for _, pool := range [][]string{ifaces, names, attrKeys, scalars, snapIDs, pubIDs, ruleTypes, snapTypes, distros, stores,
+		brands, models, {"", "ubuntu-core", "substore", "k1.k1", "k2.k3", ".k1.", "k9", "$INTERFACE", "$OTHER",
+			"$PLUG_PUBLISHER_ID", "$SLOT_PUBLISHER_ID", "$UNKNOWN", "brand1/model1", "brand1/model2", "brand2/model1", "brand2/model2"}} {
+		for _, x := range pool {
+			interned[x] = "s_" + strings.NewReplacer("-", "_", "$", "D_", ".", "_dot_", "/", "_sl_").Replace(x)
+		}
+	}
+}
+
+func cB(x string) string {
+	if id, ok := interned[x]; ok {
+		return id
+	}
+	return vh.CoqBytes(x)
+}
+
 func cBytesList(l []string) string {
 	items := make([]string, len(l))
 	for i, s := range l {
-		items[i] = vh.CoqBytes(s)
+		items[i] = cB(s)
 	}
 	return vh.CoqList(items)
 }
@@ -155,7 +179,7 @@ func cOptBytesList(l []string) string {
 func cVal(v val) string {
 	switch v.K {
 	case "s":
-		return "(VStr " + vh.CoqBytes(v.S) + ")"
+		return "(VStr " + cB(v.S) + ")"
 	case "b":
 		return "(VBool " + vh.CoqBool(v.B) + ")"
 	case "i":
@@ -179,7 +203,7 @@ func sortedKVs(m []kv) []kv {
 func cKVs(m []kv) string {
 	items := []string{}
 	for _, e := range sortedKVs(m) {
-		items = append(items, "("+vh.CoqBytes(e.Key)+", "+cVal(e.V)+")")
+		items = append(items, "("+cB(e.Key)+", "+cVal(e.V)+")")
 	}
 	return vh.CoqList(items)
 }
@@ -188,7 +212,7 @@ func cMatcher(m matcher) string {
 	case "map":
 		items := make([]string, len(m.M))
 		for i, e := range m.M {
-			items[i] = "(" + vh.CoqBytes(e.Key) + ", " + cMatcher(e.M) + ")"
+			items[i] = "(" + cB(e.Key) + ", " + cMatcher(e.M) + ")"
 		}
 		return "(MMap " + vh.CoqList(items) + ")"
 	case "alt":
@@ -198,11 +222,11 @@ func cMatcher(m matcher) string {
 		}
 		return "(MAlt " + vh.CoqList(items) + ")"
 	case "lit":
-		return "(MLit " + vh.CoqBytes(m.S) + ")"
+		return "(MLit " + cB(m.S) + ")"
 	case "missing":
 		return "MMissing"
 	case "eval":
-		return "(MEval " + vh.CoqBool(m.Slot) + " " + vh.CoqBytes(m.S) + ")"
+		return "(MEval " + vh.CoqBool(m.Slot) + " " + cB(m.S) + ")"
 	case "ref":
 		return "(MRef " + vh.CoqBool(m.Slot) + ")"
 	}
@@ -263,15 +287,21 @@ func cRule(r rule) string {
 	}
 	return "(RMap (mkRuleMap " + strings.Join(parts, " ") + "))"
 }
+func cOptRule(r *rule) string {
+	if r == nil {
+		return "None"
+	}
+	return "(Some " + cRule(*r) + ")"
+}
 func cIRules(l []irule) string {
 	items := make([]string, len(l))
 	for i, e := range l {
-		items[i] = "(" + vh.CoqBytes(e.Iface) + ", " + cRule(e.R) + ")"
+		items[i] = "(" + cB(e.Iface) + ", " + cRule(e.R) + ")"
 	}
 	return vh.CoqList(items)
 }
 func cDecl(d decl) string {
-	return "(mkDecl " + vh.CoqBytes(d.SnapID) + " " + vh.CoqBytes(d.PubID) + " " + cIRules(d.Plugs) + " " + cIRules(d.Slots) + ")"
+	return "(mkDecl " + cB(d.SnapID) + " " + cB(d.PubID) + " " + cIRules(d.Plugs) + " " + cIRules(d.Slots) + ")"
 }
 func cOptDecl(d *decl) string {
 	if d == nil {
@@ -280,7 +310,7 @@ func cOptDecl(d *decl) string {
 	return "(Some " + cDecl(*d) + ")"
 }
 func cSide(s side) string {
-	return "(mkSide " + vh.CoqBytes(s.Name) + " " + vh.CoqBytes(s.Iface) + " " + vh.CoqBytes(s.Type) + " " + cKVs(s.Static) + " " + cKVs(s.Dyn) + ")"
+	return "(mkSide " + cB(s.Name) + " " + cB(s.Iface) + " " + cB(s.Type) + " " + cKVs(s.Static) + " " + cKVs(s.Dyn) + ")"
 }
 func cSides(l []side) string {
 	items := make([]string, len(l))
@@ -292,13 +322,13 @@ func cSides(l []side) string {
 func cEnv(e envT) string {
 	m := "None"
 	if e.Model != nil {
-		m = "(Some (" + vh.CoqBytes(e.Model[0]) + ", " + vh.CoqBytes(e.Model[1]) + ", " + vh.CoqBytes(e.Model[2]) + "))"
+		m = "(Some (" + cB(e.Model[0]) + ", " + cB(e.Model[1]) + ", " + cB(e.Model[2]) + "))"
 	}
 	s := "None"
 	if e.Store != nil {
-		s = "(Some (" + vh.CoqBytes(e.Store.Store) + ", " + cBytesList(e.Store.Friendly) + "))"
+		s = "(Some (" + cB(e.Store.Store) + ", " + cBytesList(e.Store.Friendly) + "))"
 	}
-	return "(mkEnv " + vh.CoqBool(e.Classic) + " " + vh.CoqBytes(e.OSID) + " " + vh.CoqBool(e.CoreDesktop) + " " + m + " " + s + ")"
+	return "(mkEnv " + vh.CoqBool(e.Classic) + " " + cB(e.OSID) + " " + vh.CoqBool(e.CoreDesktop) + " " + m + " " + s + ")"
 }
 func cDecls(p, s *decl, b decl) string {
 	return "(mkDecls " + cOptDecl(p) + " " + cOptDecl(s) + " " + cDecl(b) + ")"
@@ -457,17 +487,29 @@ func hRules(l []irule) map[string]interface{} {
 	return m
 }
 
-const fakeKey = "Jv8_JiHiIzJVcO9M55pPdqSDWUvuhfDIBJUS-3VW7F_idjix7Ffn5qMxB21ZQuij"
+func dbg(err error) {
+	if os.Getenv("VERIF_DEBUG") != "" {
+		fmt.Fprintf(os.Stderr, "invalid: %v\n", err)
+	}
+}
 
-// assemble goes through the real header validation and rule compilation, then through the text form and back
+var (
+	signKey, _ = assertstest.GenerateKey(752)
+	signDB     = assertstest.NewSigningDB("canonical", signKey)
+	cache      = map[string]asserts.Assertion{}
+)
+
+// assemble signs the headers with a test key (asserts.Database.Sign: header validation, format check, rule
+// compilation), then goes through the text form and back (asserts.Encode / asserts.Decode)
 func assemble(headers map[string]interface{}) (a asserts.Assertion, err error) {
 	defer func() {
 		if r := recover(); r != nil {
 			a, err = nil, fmt.Errorf("panic: %v", r)
 		}
 	}()
-	headers["sign-key-sha3-384"] = fakeKey
-	a, err = asserts.Assemble(headers, nil, nil, []byte("AXNpZw=="))
+	t := asserts.Type(headers["type"].(string))
+	delete(headers, "type")
+	a, err = signDB.Sign(t, headers, nil, "")
 	if err != nil {
 		return nil, err
 	}
@@ -529,11 +571,7 @@ func setEnv(e envT) (*asserts.Model, *asserts.Store) {
 		if e.Model[2] != "" {
 			h["store"] = e.Model[2]
 		}
-		a, err := assemble(h)
-		if err != nil {
-			panic(err)
-		}
-		model = a.(*asserts.Model)
+		model = cached(fmt.Sprint("model", *e.Model), h).(*asserts.Model)
 	}
 	if e.Store != nil {
 		h := map[string]interface{}{"type": "store", "authority-id": "canonical", "store": e.Store.Store, "operator-id": "canonical",
@@ -541,13 +579,21 @@ func setEnv(e envT) (*asserts.Model, *asserts.Store) {
 		if len(e.Store.Friendly) != 0 {
 			h["friendly-stores"] = strList(e.Store.Friendly)
 		}
-		a, err := assemble(h)
-		if err != nil {
-			panic(err)
-		}
-		store = a.(*asserts.Store)
+		store = cached(fmt.Sprint("store", *e.Store), h).(*asserts.Store)
 	}
 	return model, store
+}
+
+func cached(key string, h map[string]interface{}) asserts.Assertion {
+	if a, ok := cache[key]; ok {
+		return a
+	}
+	a, err := assemble(h)
+	if err != nil {
+		panic(err)
+	}
+	cache[key] = a
+	return a
 }
 
 func snapInfo(name, typ string) *snap.Info {
@@ -602,14 +648,17 @@ func runConn(i *in, pd, sd *decl, bd decl) (verdict string, guard bool) {
 	}()
 	plugDecl, err := snapDecl(pd, "plug-snap")
 	if err != nil {
+		dbg(err)
 		return vInval, true
 	}
 	slotDecl, err := snapDecl(sd, "slot-snap")
 	if err != nil {
+		dbg(err)
 		return vInval, true
 	}
 	base, err := baseDecl(bd)
 	if err != nil {
+		dbg(err)
 		return vInval, true
 	}
 	guard = declGuard(base, &bd)
@@ -675,10 +724,12 @@ func runInst(i *in, d *decl, bd decl) (verdict string, guard bool) {
 	}()
 	sdecl, err := snapDecl(d, "the-snap")
 	if err != nil {
+		dbg(err)
 		return vInval, true
 	}
 	base, err := baseDecl(bd)
 	if err != nil {
+		dbg(err)
 		return vInval, true
 	}
 	guard = declGuard(base, &bd)
@@ -767,17 +818,16 @@ func hasRule(l []irule, iface string) bool {
 	return false
 }
 
-// replace (or remove when low == nil) the rule for iface
-func replaceRule(l []irule, iface string, low *rule) []irule {
+// drop the rule for iface, then (when low is given) add low as the rule for iface  (Policy.set_rule)
+func setRule(l []irule, iface string, low *rule) []irule {
 	var r []irule
 	for _, e := range l {
-		if e.Iface == iface {
-			if low != nil {
-				r = append(r, irule{iface, cloneRule(*low)})
-			}
-			continue
+		if e.Iface != iface {
+			r = append(r, e)
 		}
-		r = append(r, e)
+	}
+	if low != nil {
+		r = append(r, irule{iface, cloneRule(*low)})
 	}
 	return r
 }
@@ -791,7 +841,7 @@ func declCopy(d *decl) *decl {
 }
 
 // the rules of the levels below the deciding one are replaced (plug-decl plug rule > slot-decl slot rule > base plug
-// rule > base slot rule)
+// rule > base slot rule)   (Policy.decls_low)
 func lowVariantConn(i *in) (pd, sd *decl, bd decl) {
 	iface := i.Plug.Iface
 	pd, sd, bd = declCopy(i.PlugDecl), declCopy(i.SlotDecl), *declCopy(&i.Base)
@@ -810,34 +860,28 @@ func lowVariantConn(i *in) (pd, sd *decl, bd decl) {
 		return
 	}
 	if level < 2 && sd != nil {
-		sd.Slots = replaceRule(sd.Slots, iface, i.Low)
-		if i.Low != nil && !hasRule(sd.Slots, iface) {
-			sd.Slots = append(sd.Slots, irule{iface, cloneRule(*i.Low)})
-		}
+		sd.Slots = setRule(sd.Slots, iface, i.Low)
 	}
 	if level < 3 {
-		bd.Plugs = replaceRule(bd.Plugs, iface, i.Low)
+		bd.Plugs = setRule(bd.Plugs, iface, i.Low)
 	}
 	if level < 4 {
-		bd.Slots = replaceRule(bd.Slots, iface, i.Low)
-		if i.Low != nil && !hasRule(bd.Slots, iface) {
-			bd.Slots = append(bd.Slots, irule{iface, cloneRule(*i.Low)})
-		}
+		bd.Slots = setRule(bd.Slots, iface, i.Low)
 	}
 	return
 }
 
-// base-declaration rules shadowed by a snap-declaration rule are replaced
+// base-declaration rules shadowed by a snap-declaration rule are replaced   (Policy.inst_base_low)
 func lowVariantInst(i *in) decl {
 	bd := *declCopy(&i.Base)
 	if i.Decl == nil {
 		return bd
 	}
 	for _, e := range i.Decl.Slots {
-		bd.Slots = replaceRule(bd.Slots, e.Iface, i.Low)
+		bd.Slots = setRule(bd.Slots, e.Iface, i.Low)
 	}
 	for _, e := range i.Decl.Plugs {
-		bd.Plugs = replaceRule(bd.Plugs, e.Iface, i.Low)
+		bd.Plugs = setRule(bd.Plugs, e.Iface, i.Low)
 	}
 	return bd
 }
@@ -860,13 +904,10 @@ func exec(i in) vh.Out {
 		if obs != vInval {
 			obsD, _ = runConn(&i, pdD, sdD, bdD)
 			obsL, _ = runConn(&i, pdL, sdL, bdL)
-		} else {
-			pdD, sdD, bdD = i.PlugDecl, i.SlotDecl, i.Base
-			pdL, sdL, bdL = i.PlugDecl, i.SlotDecl, i.Base
 		}
 		coq := "(CConn " + vh.CoqBool(auto) + " (mkConn " + cEnv(i.Env) + " " + cSide(i.Plug) + " " + cSide(i.Slot) + " " +
-			cDecls(i.PlugDecl, i.SlotDecl, i.Base) + ") " + obs + " " + cDecls(pdD, sdD, bdD) + " " + obsD + " " +
-			cDecls(pdL, sdL, bdL) + " " + obsL + " " + vh.CoqBool(guard) + ")"
+			cDecls(i.PlugDecl, i.SlotDecl, i.Base) + ") " + obs + " " + cAlt(i.ExtraDenyPlug) + " " + cAlt(i.ExtraDenySlot) + " " + obsD + " " +
+			cOptRule(i.Low) + " " + obsL + " " + vh.CoqBool(guard) + ")"
 		tags := []string{i.Kind + ":" + obs}
 		level := "level:none"
 		iface := i.Plug.Iface
@@ -898,12 +939,10 @@ func exec(i in) vh.Out {
 		if obs != vInval {
 			obsD, _ = runInst(&i, dD, bdD)
 			obsL, _ = runInst(&i, i.Decl, bdL)
-		} else {
-			dD, bdD, bdL = i.Decl, i.Base, i.Base
 		}
-		coq := "(CInst (mkInst " + cEnv(i.Env) + " " + vh.CoqBytes(i.Type) + " " + cSides(i.Slots) + " " + cSides(i.Plugs) + " " +
-			cOptDecl(i.Decl) + " " + cDecl(i.Base) + ") " + obs + " " + cOptDecl(dD) + " " + cDecl(bdD) + " " + obsD + " " +
-			cDecl(bdL) + " " + obsL + " " + vh.CoqBool(guard) + ")"
+		coq := "(CInst (mkInst " + cEnv(i.Env) + " " + cB(i.Type) + " " + cSides(i.Slots) + " " + cSides(i.Plugs) + " " +
+			cOptDecl(i.Decl) + " " + cDecl(i.Base) + ") " + obs + " " + cAlt(i.ExtraDenyPlug) + " " + cAlt(i.ExtraDenySlot) + " " + obsD + " " +
+			cOptRule(i.Low) + " " + obsL + " " + vh.CoqBool(guard) + ")"
 		tags := []string{"inst:" + obs}
 		if obs != obsD {
 			tags = append(tags, "extra-deny-flips")
